@@ -577,9 +577,20 @@ impl C11 {
         let mut members: Vec<(u32, Vec<u16>)> = Vec::new();
         let mut shared_idx: Vec<u16> = Vec::new();
         let mut dummy = Vec::new();
-        for (k, f) in fonts.iter().enumerate() {
+        // the flat table directory need not list the fonts' tables in font order: the first entry of
+        // a tag may belong to any member
+        let mut order: Vec<usize> = (0..nfonts).collect();
+        let shuffled = rng.chance(1, 2);
+        if shuffled {
+            rng.shuffle(&mut order);
+        }
+        let mut member_idx: Vec<Vec<u16>> = vec![Vec::new(); nfonts];
+        let mut built_shared = false;
+        for &k in &order {
+            let f = &fonts[k];
             let mut idx: Vec<u16> = Vec::new();
-            if !(share_glyf && k > 0) {
+            if !(share_glyf && built_shared) {
+                built_shared = true;
                 let enc = EncChoice::compact();
                 let records: Vec<Vec<u8>> = f
                     .glyphs
@@ -616,7 +627,10 @@ impl C11 {
                 idx.push(tables.len() as u16);
                 tables.push(W2Table { tag: *t, orig_length: d.len() as u32, payload: d.clone(), transform_version: 0, has_transform_length: false, force_arbitrary_tag: false });
             }
-            members.push((f.flavor, idx));
+            member_idx[k] = idx;
+        }
+        for (k, f) in fonts.iter().enumerate() {
+            members.push((f.flavor, std::mem::take(&mut member_idx[k])));
         }
         let bytes = w2::build_woff2(tag("ttcf"), &tables, Some(&members), 65536, rng, false);
         let fd = match ReadScope::new(&bytes).read::<FontData<'_>>() {
@@ -641,6 +655,9 @@ impl C11 {
         }
         if ok {
             cx.class(if share_glyf { "collection:shared-glyf" } else { "collection:separate-glyf" });
+            if shuffled && order[0] != 0 && !share_glyf {
+                cx.class("collection:first-directory-entries-belong-to-a-later-member");
+            }
         }
         cx.nontrivial(hash_bytes(&bytes));
     }
